@@ -23,6 +23,7 @@ EXPLANATION = (
     "very SKIP object bound for the expression, exactly one write of dumps(result)+newline."
     "  _render_timestamp hands message[timestamp] to the datetime conversion as it is (no arithmetic, splitting or rounding of it, no datetime field set from a computed number); the two field loops are recognised as for statements or comprehensions, in the formatter or a helper."
     "  EliotFilter's dumps options are examined (ensure_ascii=False, allow_nan=False make the write partial); value-keyed caches in front of rendering are violations also in the call form lru_cache(...)(f)."
+    '  textwrap.indent in prettyprint.py needs an explicit predicate (its default skips whitespace-only lines).'
 )
 RULE = "obligation = rule instance bound to a table constant / loop / call of prettyprint.py and filter.py; non-trivial = expressions or CFG paths examined"
 ASSUMPTIONS = ["rendered text (value-level) is not decided", "json.dumps without indent emits no newline"]
